@@ -17,10 +17,16 @@ argument object.  The reference side is written here from the documented rules, 
 * `sql_eval`     - a few lines evaluating `replace(..)`, `||`, `concat(..)` over the token stream.
 
 Asserted: the token stream the database sees is exactly the expected structure and every value token equals the
-value the program supplied; for LIKE: `s LIKE pattern` <=> Python's startswith / endswith / in.
+value the program supplied.  For LIKE: the pattern the server evaluates (literal, or REPLACE chain over the bound
+argument / column), decoded with the ESCAPE character in force (the dialect's default when pony gives none), is the
+canonical pattern of the operand - its characters as literals, `%` at the open end(s) - which holds for every left-hand
+string; `like_lemma` then shows with both strings symbolic that the canonical pattern means startswith / endswith / in.
+
+Regions where pony is known not to meet the property have harnesses of their own whose precondition IS the region
+(lit_str_mysql_backslash, like_const_backslash_*, ident_percent_*, ident_oracle_dquote); every other harness must confirm.
+Preconditions never contain a backslash: CrossHair evaluates them from the raw source text of the docstring.
 """
 import os
-from typing import List, Optional, Tuple
 from engine.ch import ok
 from engine import env as E0
 
@@ -45,6 +51,7 @@ ID_ALPHA_NQ = "`.a"                  # Oracle: no way to spell a double quote in
 ID_ALPHA_P = ID_ALPHA + "%"          # SQLite / Oracle statements never pass through % interpolation
 ID_ALPHA_NQ_P = ID_ALPHA_NQ + "%"
 LIKE_ALPHA = "%_!ab"                  # LIKE metacharacters, pony's escape character, two ordinary characters
+BS = "\\"                            # (preconditions name it: CrossHair reads them from the raw source text)
 LIKE_ALPHA_B = "%_!a\\"               # ... and the backslash (default escape character of PostgreSQL / MySQL)
 
 _dbs = {}
@@ -237,9 +244,11 @@ def ref_lex(items, dialect, style, backslash=None):
 
 
 def ref_bind(toks, args, style):
-    """PEP 249: qmark - the k-th `?` takes args[k]; numeric - `:N` takes args[N-1]; named - `:name` takes args[name]."""
+    """PEP 249: qmark - the k-th `?` takes args[k] (as many arguments as marks); numeric - `:N` takes args[N-1];
+    named - `:name` takes args[name] (every supplied name must occur: cx_Oracle, the one shipped `named` driver, rejects others)."""
     out = []
     k = 0
+    used = set()
     for t in toks:
         if t[0] != 'ph':
             out.append(t)
@@ -255,7 +264,9 @@ def ref_bind(toks, args, style):
         else:
             if not isinstance(args, dict) or t[1] not in args: raise LexError('missing named argument')
             out.append(('arg', args[t[1]]))
+            used.add(t[1])
     if style == 'qmark' and k != len(args): raise LexError('too many arguments')
+    if style == 'named' and len(used) != len(args): raise LexError('bind variable without a placeholder (ORA-01036 on cx_Oracle)')
     return out
 
 
@@ -325,7 +336,7 @@ def lit_str_mysql_backslash(s: str) -> bool:
     """
     pre: len(s) <= N_LIT
     pre: all(c in LIT_ALPHA for c in s)
-    pre: '\\\\' in s
+    pre: BS in s
     post: _
     """
     # MySQL, default sql_mode (backslash is an escape character inside '...'): the complement region
@@ -803,7 +814,7 @@ def like_const_postgres(op: int, x: str) -> bool:
     """
     pre: 0 <= op < 4 and len(x) <= N_X
     pre: all(c in LIKE_ALPHA_B for c in x)
-    pre: not ('\\\\' in x and '%' not in x and '_' not in x)
+    pre: not (BS in x and '%' not in x and '_' not in x)
     post: _
     """
     # every constant operand outside the region of like_const_backslash_postgres
@@ -823,7 +834,7 @@ def like_const_backslash_postgres(op: int, x: str) -> bool:
     """
     pre: 0 <= op < 4 and len(x) <= N_X
     pre: all(c in LIKE_ALPHA_B for c in x)
-    pre: '\\\\' in x and '%' not in x and '_' not in x
+    pre: BS in x and '%' not in x and '_' not in x
     post: _
     """
     # complement region: constant operand containing a backslash and no LIKE metacharacter (PostgreSQL's LIKE uses `\\` as the escape character when no ESCAPE is given)
@@ -870,7 +881,7 @@ def like_const_backslash_mysql(op: int, x: str) -> bool:
     """
     pre: 0 <= op < 4 and len(x) <= N_X
     pre: all(c in LIKE_ALPHA_B for c in x)
-    pre: '\\\\' in x
+    pre: BS in x
     post: _
     """
     # complement region on MySQL (backslash is both a literal escape and the default LIKE escape)
